@@ -100,7 +100,8 @@ def explore(desc, make_case, owns, signature, classify=None, sample_pred=None, m
             for k, v in ck.stats.items():
                 counters[k] = counters.get(k, 0) + v
             extra = extra_check(case, run, log, ck, fault) if (extra_check and rej is None) else None
-            own_soft = [x for x in getattr(ck, "softs", []) if owns(x[0], {})]
+            sflags = getattr(ck, "soft_flags", [])
+            own_soft = [x for i_, x in enumerate(getattr(ck, "softs", [])) if owns(x[0], sflags[i_] if i_ < len(sflags) else {})]
             counters["soft_deviations"] = counters.get("soft_deviations", 0) + len(getattr(ck, "softs", []))
             if own_soft and (rej is None or not owns(rej.rule, rej.flags)):
                 extra = own_soft[0]
@@ -185,7 +186,7 @@ def maybe_style(rng, spec, p_style):
     return spec
 
 
-def basic_case(rng, profile, hist=(5, 25), drivers=("sync",), styles=("send",), p_unknown=0.08, async_modes=("none",), p_style=0.0):
+def basic_case(rng, profile, hist=(5, 25), drivers=("sync",), styles=("send",), p_unknown=0.08, async_modes=("none",), p_style=0.0, p_clone=0.06):
     prof = dict(profile)
     prof["async_mode"] = rng.choice(async_modes)
     spec = maybe_style(rng, gen.gen_spec(rng, prof), p_style)
@@ -194,4 +195,7 @@ def basic_case(rng, profile, hist=(5, 25), drivers=("sync",), styles=("send",), 
     if spec["any_async"] and rng.random() < 0.5:
         steps.append({"op": "activate"})
     steps += gen.gen_history(rng, spec, rng.randint(*hist), p_unknown=p_unknown, styles=styles)
+    if p_clone and rng.random() < p_clone:
+        first_send = next((i for i, s_ in enumerate(steps) if s_["op"] == "send"), len(steps))
+        steps.insert(rng.randint(first_send, len(steps)), {"op": "become_clone", "how": rng.choice(["deepcopy", "pickle"])})
     return {"scenario": Scenario(spec, steps, driver)}
